@@ -93,3 +93,16 @@ func (e *Engine) PreloadGlobals(st *State) {
 		}
 	}
 }
+
+// globalPtrByName returns the pointer to a package-level variable.
+func (e *Engine) globalPtrByName(st *State, pkgPath, name string) PtrV {
+	for _, p := range e.Prog.AllPackages() {
+		if p.Pkg.Path() == pkgPath {
+			if g, ok := p.Members[name].(*ssa.Global); ok {
+				return e.globalPtr(st, g)
+			}
+		}
+	}
+	e.fail("global %s.%s not found", pkgPath, name)
+	return nilPtr
+}
